@@ -162,8 +162,22 @@ def run_schema(ck, m, rng, n_docs, max_depth):
                 continue
             items.append({"text": t, "doc": doc, "valid": not verrs, "dg": dg, "mutant": is_mut, "wdoc": wdoc,
                           "verr": verrs[0].message if verrs else None, "op": ops[0]})
+    process(ck, m, rng, gs, schema, sdl, wschema, items, max_depth)
+
+
+class FixedRequest:
+    """Stands for the document generator of a corpus case."""
+
+    def __init__(self, operation_name=None):
+        self.operation_name, self.features, self.used_fields = operation_name, {"corpus"}, set()
+
+
+def process(ck, m, rng, gs, schema, sdl, wschema, items, max_depth):
+    """Typing direction for all items; execution checks for those validate() accepts."""
     # requests for the valid ones
     for it in items:
+        if "variables" in it:
+            continue                        # a corpus case brings its request
         it["variables"], it["data"], it["conforming_gen"] = {}, None, False
         if it["valid"]:
             dg = it["dg"]
@@ -315,7 +329,7 @@ def run(tier):
     n_schemas, n_docs = (25, 40) if tier == "quick" else (300, 120)
     budget = 75 if tier == "quick" else 900
     for c in common.load_corpus("C13"):
-        pass
+        run_corpus_case(ck, m, c)
     for i in range(n_schemas):
         if time.time() - t0 > budget:
             ck.count("stopped_on_time_budget")
@@ -330,6 +344,26 @@ def run(tier):
                "classified and counted. non-trivial = mutant or document using fragments/aliases/directives/variables, "
                "and every executed request")
     return ck.finish()
+
+
+def run_corpus_case(ck, m, c):
+    from graphql import build_schema, parse, validate
+    from graphql.language import ast as A
+    try:
+        schema = build_schema(c["sdl"])
+        doc = parse(c["document"])
+        verrs = validate(schema, doc)
+        opn = c.get("operation_name")
+        ops = [d for d in doc.definitions if isinstance(d, A.OperationDefinitionNode)
+               and (opn is None or (d.name and d.name.value == opn))]
+        item = {"text": c["document"], "doc": doc, "valid": not verrs, "dg": FixedRequest(opn), "mutant": False,
+                "wdoc": G.enc_doc(doc, opn), "verr": verrs[0].message if verrs else None, "op": ops[0],
+                "variables": c.get("variables") or {}, "data": G.data_from_jsonable(c.get("data")),
+                "conforming_gen": False}
+        process(ck, m, ck.rng, None, schema, c["sdl"], G.enc_schema(schema), [item], 3)
+    except Exception as e:  # noqa: BLE001
+        ck.count("corpus_case_unusable")
+        ck.extra.setdefault("corpus_errors", []).append(repr(e)[:200])
 
 
 def replay(path):
